@@ -101,6 +101,24 @@ def replay(obligation, extra):
                 return dict(found=True, input='%s%s' % (name, '' if auto_pong else ' (auto_pong off)'),
                             expected='one ProtocolError, nothing of the frame delivered, non-graceful Disconnected',
                             observed=err, events=[harness.ev_summary(e) for e in run.events][-4:])
+    # reserved close code arriving while the client is already closing (it called close() first, or it
+    # already echoed a first server Close)
+    for code in (999, 1005, 1006, 1015, 2999):
+        for first in ('client', 'server'):
+            tried += 1
+            bad = ref.server_frame(8, struct.pack('!H', code) + b'x')
+            if first == 'client':
+                stream = ref.server_frame(1, b'one') + bad
+                react = lambda ws, ev, k, run: ws.close() if ev.name == 'text' else None
+            else:
+                stream = ref.server_frame(8, struct.pack('!H', 1000)) + bad
+                react = None
+            run = harness.drive(stream=stream, react=react, cuts=range(1, 4096), connect_kwargs=dict(ping_rate=0))
+            names = [e.name for e in run.events]
+            bad_events = [harness.ev_summary(e) for e in run.events if e.name in ('closed', 'closing') and getattr(e, 'code', None) == code]
+            if bad_events or (first == 'client' and names.count('protocol_error') != 1):
+                return dict(found=True, input='Close with reserved code %d arriving after %s' % (code, 'the application called close()' if first == 'client' else 'a first valid server Close was echoed'),
+                            expected='ProtocolError, the reserved code never delivered', observed='events: %r' % names)
     return dict(found=False, tried='%d runs: every violation class x 2 prefixes x 2 segmentations x auto_pong on/off' % tried)
 
 
